@@ -53,7 +53,7 @@ MANIFEST = {
         "design_ref": "DESIGN.md 3/C12",
     }
 }
-PROPS = ["Nstd.Callback.Props", "Nstd.Callback.PropsTie"]
+PROPS = ["Nstd.Callback.Props", "Nstd.Callback.PropsTie", "Nstd.Callback.PropsOrder"]
 DRIVER = "drv_callback"
 LEAN_TARGETS = PROPS + [DRIVER]
 GEN_BODY = C.LEAN / "Nstd/Generated/CallbackBody.lean"
